@@ -64,11 +64,13 @@ def net_keys(draw, n_nets):
 
 
 @st.composite
-def strat_pipeline(draw, tier, mode):
+def strat_pipeline(draw, tier, mode, heavy_faults=False):
     big = tier == "thorough"
     # few cores per chip, so that graphs spread over several chips
     ncores = draw(st.one_of(st.integers(2, 6), st.integers(2, 6),
                             st.integers(1, 18)))
+    if heavy_faults:
+        ncores = draw(st.integers(1, 2))      # spread the graph widely
     if mode == "system-info":
         resources = {"Cores": min(18, ncores + 1),
                      "SDRAM": draw(st.integers(20, 100)),
@@ -82,7 +84,22 @@ def strat_pipeline(draw, tier, mode):
     small = placer in ("sa-python", "default")
     max_w = (8 if big else 5) if small else (16 if big else 8)
     max_v = (12 if big else 8) if small else (30 if big else 12)
-    m = draw(pr.machine(max_w, max_w, resources=resources))
+    if heavy_faults:
+        # 10-30% of all links dead in one direction: nets need several
+        # repairs that interact (cf. C03 'dead-links')
+        m = draw(pr.machine(resources=resources, exceptions=False,
+                            shape=st.tuples(st.integers(4, 8),
+                                            st.integers(3, 7))))
+        m["dead_chips"] = []
+        k = draw(st.integers((6 * m["w"] * m["h"]) // 10,
+                             (18 * m["w"] * m["h"]) // 10))
+        m["dead_links"] = sorted(set(draw(st.lists(
+            st.tuples(st.integers(0, m["w"] - 1), st.integers(0, m["h"] - 1),
+                      st.integers(0, 5)), min_size=k, max_size=k))))
+        # the random placer spreads the graph over the whole machine
+        placer = draw(st.sampled_from(["rand", "rand", "rand", "hilbert"]))
+    else:
+        m = draw(pr.machine(max_w, max_w, resources=resources))
     if mode == "system-info":
         # resource exceptions may only lower a quantity (build_machine takes
         # the maximum as the default)
@@ -92,12 +109,15 @@ def strat_pipeline(draw, tier, mode):
     chips = pr.live_chips(m)
     total = sum(pr.chip_capacity(m, c)["Cores"] for c in chips)
     top = max(1, min(max_v, total // 2))
-    n = draw(st.integers(min(3, top), top))
+    if heavy_faults:
+        top = max(1, min(24, total // 2))
+    n = draw(st.integers(min(3 if not heavy_faults else 8, top), top))
     names = ["v%d" % i for i in range(n)]
     vertices = []
     for v in names:
         needs = {}
-        k = draw(st.sampled_from([0, 1, 1, 1, 1, 2]))
+        k = draw(st.sampled_from([0, 1, 1, 1, 1, 2] if not heavy_faults
+                                 else [1, 1, 1, 0]))
         if k or draw(st.booleans()):
             needs["Cores"] = k
         if "SDRAM" in resources and draw(st.booleans()):
@@ -137,15 +157,20 @@ def strat_pipeline(draw, tier, mode):
                 c["type"] == "endpoint" and c["v"] == v for c in constraints):
             constraints.append({"type": "endpoint", "v": v,
                                 "route": 6 + draw(st.integers(0, 17))})
-    if mode != "system-info":
+    if mode != "system-info" and not heavy_faults:
         reserve, _ = draw(gp.reservations(m, chips, max_each=1))
         for r in reserve:
             if r["res"] in ("Cores", "SDRAM"):
                 constraints.append(dict(r, type="reserve"))
     constraints = draw(st.permutations(constraints))
-    nets = draw(gp.nets_strategy(names, max_nets=8 if big else 6,
-                                 max_fan=8 if big else 5,
-                                 min_nets=draw(st.sampled_from([0, 1, 2]))))
+    if heavy_faults:
+        nets = draw(gp.nets_strategy(names, max_nets=8, max_fan=10,
+                                     min_nets=3))
+    else:
+        nets = draw(gp.nets_strategy(names, max_nets=8 if big else 6,
+                                     max_fan=8 if big else 5,
+                                     min_nets=draw(st.sampled_from([0, 1,
+                                                                    2]))))
     keys = draw(net_keys(len(nets)))
     case = {"mode": mode, "machine": m, "vertices": vertices, "nets": nets,
             "constraints": constraints, "keys": keys,
@@ -154,7 +179,9 @@ def strat_pipeline(draw, tier, mode):
             "effort": draw(st.sampled_from([0.0, 0.1, 0.5])),
             "radius": draw(st.sampled_from([None, 0, 1, 2, 5, 20])),
             "methods": draw(st.sampled_from(METHODS))}
-    if mode == "by-hand":
+    if mode == "by-hand" and heavy_faults:
+        case["target"] = draw(st.sampled_from([None, None, 1024, 6]))
+    elif mode == "by-hand":
         case["target"] = draw(st.one_of(
             st.none(), st.integers(0, 5), st.just(1024), st.integers(0, 12),
             st.lists(st.one_of(st.none(), st.integers(0, 8)), min_size=4,
@@ -426,8 +453,15 @@ RULE = ("graphs x machines (dead chips, one-way dead links, resource "
         "than its net's source and the tables are not empty")
 
 CLAUSES = [
+    Clause("by-hand-heavy-faults", check_pipeline,
+           strategy=lambda tier: strat_pipeline(tier, "by-hand", True),
+           rule=RULE + "; machines 4-8 x 3-7 with 10-30% of the links dead in "
+                "one direction, so that routes need several interacting "
+                "repairs",
+           examples={"quick": 1500, "thorough": 15000},
+           shards={"quick": 8, "thorough": 16}),
     Clause("by-hand", check_pipeline, strategy=_strat("by-hand"), rule=RULE,
-           examples={"quick": 1500, "thorough": 12000},
+           examples={"quick": 1200, "thorough": 12000},
            shards={"quick": 8, "thorough": 16}),
     Clause("system-info-wrapper", check_pipeline,
            strategy=_strat("system-info"),
